@@ -123,6 +123,14 @@ type Exec struct {
 	stopAt  int
 	// UserLog collects harness observations that are part of the state key.
 	obs uint64
+	// canonical channel numbering (addresses differ between executions) and shadow queues of the
+	// digests of the values queued in each buffered channel (part of the state key)
+	chanNo map[uintptr]int
+	shadow map[uintptr][]uint64
+	// Symmetric, when set, makes the state key independent of the order of threads that were
+	// spawned at the same site (they run the same code; their state is history + pending operation)
+	Symmetric bool
+	Bounded   bool
 }
 
 type killSentinel struct{}
@@ -152,6 +160,35 @@ func chanID(ch any) uintptr {
 		return 0
 	}
 	return v.Pointer()
+}
+
+// chNo returns the canonical number of a channel in this execution: named channels keep the number
+// the harness gave them, others are numbered in order of first use.
+func (x *Exec) chNo(ch uintptr) int {
+	if ch == 0 {
+		return 0
+	}
+	if x.chanNo == nil {
+		x.chanNo = map[uintptr]int{}
+	}
+	n, ok := x.chanNo[ch]
+	if !ok {
+		n = 1000 + len(x.chanNo)
+		x.chanNo[ch] = n
+	}
+	return n
+}
+
+// NameChan gives a channel a stable number for state keys (call from Setup/Body before use).
+func NameChan(ch any, n int) {
+	x := cur
+	if x == nil {
+		return
+	}
+	if x.chanNo == nil {
+		x.chanNo = map[uintptr]int{}
+	}
+	x.chanNo[chanID(ch)] = n
 }
 
 // ---- thread side ---------------------------------------------------------------------------
@@ -232,9 +269,18 @@ func commOp(x *Exec, o *op) commResult {
 	c := &o.cases[r.idx]
 	if c.send {
 		c.doSend()
+		if c.capN > 0 && !x.closed[c.ch] {
+			if x.shadow == nil {
+				x.shadow = map[uintptr][]uint64{}
+			}
+			x.shadow[c.ch] = append(x.shadow[c.ch], Digest(c.val))
+		}
 		return r
 	}
 	r.val, r.ok = c.doRecv()
+	if q := x.shadow[c.ch]; len(q) > 0 {
+		x.shadow[c.ch] = q[1:]
+	}
 	t.hist = mix(t.hist, Digest(r.val))
 	return r
 }
@@ -469,9 +515,20 @@ func (x *Exec) enabledOf(t *Thread) []Transition {
 func opSig(t *Thread) string {
 	o := t.op
 	var b strings.Builder
-	fmt.Fprintf(&b, "%s|%d|%s|%x", t.Name, o.kind, o.site, o.addr)
+	x := cur
+	fmt.Fprintf(&b, "%s|%d|%s", t.Name, o.kind, o.site)
+	if o.kind == opClose && x != nil {
+		fmt.Fprintf(&b, "|%d", x.chNo(o.addr))
+	}
 	for _, c := range o.cases {
-		fmt.Fprintf(&b, "|%v:%x", c.send, c.ch)
+		n := 0
+		if x != nil {
+			n = x.chNo(c.ch)
+		}
+		fmt.Fprintf(&b, "|%v:%d", c.send, n)
+		if c.send {
+			fmt.Fprintf(&b, "=%x", Digest(c.val))
+		}
 	}
 	return b.String()
 }
@@ -690,18 +747,60 @@ var Digest = func(v any) uint64 {
 // harness-supplied key of everything else (channel contents, connection position, ...).
 func (x *Exec) stateKey() uint64 {
 	h := x.KeyFn()
-	for _, t := range x.threads {
-		if t.done {
-			h = mix(h, uint64(t.ID)<<8|1)
-			continue
-		}
-		h = mix(h, t.hist)
-		if t.op != nil {
-			h = mix(h, strHash(opSig(t)))
+	// channel contents, in canonical channel order
+	type cq struct {
+		no int
+		q  []uint64
+	}
+	var qs []cq
+	for ch, q := range x.shadow {
+		if len(q) > 0 {
+			qs = append(qs, cq{x.chNo(ch), q})
 		}
 	}
-	if x.prev != nil {
-		h = mix(h, uint64(x.prev.ID)+77)
+	sort.Slice(qs, func(i, j int) bool { return qs[i].no < qs[j].no })
+	for _, c := range qs {
+		h = mix(h, uint64(c.no)<<20|uint64(len(c.q)))
+		for _, v := range c.q {
+			h = mix(h, v)
+		}
+	}
+	var closed []int
+	for ch := range x.closed {
+		closed = append(closed, x.chNo(ch))
+	}
+	sort.Ints(closed)
+	for _, c := range closed {
+		h = mix(h, uint64(c)+0xc105ed)
+	}
+	threadHash := func(t *Thread) uint64 {
+		th := strHash(t.Name)
+		if t.done {
+			return mix(th, 1)
+		}
+		th = mix(th, t.hist)
+		if t.op != nil {
+			th = mix(th, strHash(opSig(t)))
+		}
+		return th
+	}
+	if x.Symmetric {
+		hs := make([]uint64, 0, len(x.threads))
+		for _, t := range x.threads {
+			hs = append(hs, threadHash(t))
+		}
+		sort.Slice(hs, func(i, j int) bool { return hs[i] < hs[j] })
+		for _, v := range hs {
+			h = mix(h, v)
+		}
+	} else {
+		for _, t := range x.threads {
+			h = mix(h, threadHash(t))
+		}
+	}
+	if x.Bounded && x.prev != nil {
+		// under a preemption bound the identity of the last running thread is part of the state
+		h = mix(h, threadHash(x.prev)+77)
 	}
 	return h
 }
@@ -712,4 +811,58 @@ func strHash(s string) uint64 {
 		h = (h ^ uint64(s[i])) * 1099511628211
 	}
 	return h
+}
+
+// NameChanID is NameChan for a channel known only by its pointer value.
+func NameChanID(p uintptr, n int) {
+	x := cur
+	if x == nil || p == 0 {
+		return
+	}
+	if x.chanNo == nil {
+		x.chanNo = map[uintptr]int{}
+	}
+	x.chanNo[p] = n
+}
+
+// BlockedOp describes the pending operation of a thread that is parked at the end of an execution.
+type BlockedOp struct {
+	Thread string
+	Site   string
+	Kind   string // "comm", "wait", "close", "access"
+	Recv   []int  // canonical numbers of the channels it waits to receive from
+	Send   []int  // ... to send to
+}
+
+// BlockedOps lists the parked threads with their pending operations (canonical channel numbers).
+func (x *Exec) BlockedOps() []BlockedOp {
+	var out []BlockedOp
+	for _, t := range x.threads {
+		if t.done || t.op == nil {
+			continue
+		}
+		b := BlockedOp{Thread: t.Name, Site: t.op.site}
+		switch t.op.kind {
+		case opComm:
+			b.Kind = "comm"
+			for _, c := range t.op.cases {
+				if c.ch == 0 {
+					continue
+				}
+				if c.send {
+					b.Send = append(b.Send, x.chNo(c.ch))
+				} else {
+					b.Recv = append(b.Recv, x.chNo(c.ch))
+				}
+			}
+		case opWait:
+			b.Kind = "wait"
+		case opClose:
+			b.Kind = "close"
+		default:
+			b.Kind = "access"
+		}
+		out = append(out, b)
+	}
+	return out
 }
